@@ -72,6 +72,33 @@ def search(chk, r, n, max_pto):
             chk.extra["search_exceptions"][k] = chk.extra["search_exceptions"].get(k, 0) + 1
 
 
+def search_cross_sections(chk, r, n):
+    """the decompositions hold for every observable, also for the cross sections (linear in the
+    structure functions): FFNS NfFF=3 total = light + charm + bottom + top, ZM total = light"""
+    plans = [
+        ("XSHERANC", "NC", "electron", dict(x=0.05, Q2=2000.0, y=0.7)),
+        ("XSHERANC", "NC", "positron", dict(x=0.1, Q2=600.0, y=0.4)),
+        ("XSHERACC", "CC", "positron", dict(x=0.05, Q2=2000.0, y=0.7)),
+        ("XSHERANCAVG", "NC", "electron", dict(x=0.1, Q2=90.0, y=0.5)),
+        ("XSCHORUSCC", "CC", "neutrino", dict(x=0.2, Q2=20.0, y=0.6)),
+        ("F1", "NC", "electron", dict(x=0.1, Q2=90.0, y=0.5)),
+    ]
+    for i in range(n):
+        kind, process, proj, pt = plans[i % len(plans)]
+        kw = dict(prDIS=process, ProjectileDIS=proj)
+        names = [f"{kind}_{h}" for h in ["total", "light", "charm", "bottom", "top"]]
+        base = dict(kind=kind, process=process, projectile=proj, point=pt)
+        try:
+            out = realrun.run(cards.theory(PTO=0, FNS="FFNS", NfFF=3), cards.obs({n_: [dict(pt)] for n_ in names}, **kw))
+            rel(chk, "cross_section_total_vs_parts", f"FFNS NfFF=3 {kind}: total != light+charm+bottom+top", out[names[0]][0], [out[n_][0] for n_ in names[1:]], dict(base, FNS="FFNS", NfFF=3))
+            outz = realrun.run(cards.theory(PTO=0, FNS="ZM-VFNS"), cards.obs({n_: [dict(pt)] for n_ in names[:2]}, **kw))
+            rel(chk, "cross_section_total_vs_parts", f"ZM-VFNS {kind}: total != light", outz[names[0]][0], [outz[names[1]][0]], dict(base, FNS="ZM-VFNS"))
+        except Exception as e:
+            chk.extra.setdefault("search_exceptions", {})
+            k = f"xs:{type(e).__name__}:{str(e)[:80]}"
+            chk.extra["search_exceptions"][k] = chk.extra["search_exceptions"].get(k, 0) + 1
+
+
 def search_pos_kernels(chk, r, n):
     """kernel-list level positivity partition on the real Combiner (no convolution needed):
     for every kernel the weights of the six restricted runs sum to the unrestricted weights"""
@@ -153,6 +180,7 @@ def run(tier):
     search_pos_kernels(chk, r, 60 if thorough else 8)
     search_parts_kernels(chk, r, 200 if thorough else 30)
     search(chk, r, 120 if thorough else 14, 2 if thorough else 1)
+    search_cross_sections(chk, r, 12 if thorough else 4)
     chk.assumptions += [
         "operator entries are linear in the kernel list: `conv` (coefficient function x basis function, quadrature, scale-variation matrices) is an arbitrary parameter of the theorems",
         "kernel-list level statement of the positivity partition is proved for the weight functions (get_weight, get_fl11_weight, pair weights); its lift to every generator is observed by the real-run search, not proved",
